@@ -363,3 +363,12 @@ func c10(args []string) int {
 	c10churn(run)
 	return run.Finish()
 }
+
+func variableGetConnID(ctx context.Context) (uint64, error) {
+	v, err := variable.Get(ctx, types.VariableUpstreamConnectionID)
+	if err != nil {
+		return 0, err
+	}
+	id, _ := v.(uint64)
+	return id, nil
+}
